@@ -11,6 +11,7 @@ import (
 	"os"
 	"path"
 	"strings"
+	"sync"
 	"syscall"
 	"testing"
 	"time"
@@ -473,5 +474,83 @@ func c10Backward(u *vfUnit, part int) {
 	if msg := rs.End(60 * time.Second); msg != "" {
 		u.Violation("serve-end", msg, nil)
 	}
+	c10Listing(u)
 	u.Sample(map[string]any{"error_values": len(errs), "entry_points": len(probes), "example": "Filecmd returns &os.LinkError{Err: EACCES} -> STATUS PERMISSION_DENIED expected"})
 }
+
+// c10ShortLister hands out its entries `per` at a time (nil error until the end) and records the offsets it is asked for.
+type c10ShortLister struct {
+	ents []os.FileInfo
+	per  int
+	mu   sync.Mutex
+	offs []int64
+}
+
+func (l *c10ShortLister) ListAt(out []os.FileInfo, off int64) (int, error) {
+	l.mu.Lock()
+	l.offs = append(l.offs, off)
+	l.mu.Unlock()
+	if off >= int64(len(l.ents)) {
+		return 0, io.EOF
+	}
+	n := copy(out[:min(l.per, len(out))], l.ents[off:])
+	return n, nil
+}
+
+type c10ListHandler struct{ l *c10ShortLister }
+
+func (h c10ListHandler) Filelist(r *Request) (ListerAt, error) { return h.l, nil }
+
+// c10Listing: a listing reaches the client as the lister gave it — every entry once, in order,
+// and the lister is asked for consecutive offsets (each call continues where the entries it
+// returned so far end), whatever batch sizes it chooses.
+func c10Listing(u *vfUnit) {
+	for _, per := range []int{1, 7, 99, 100, 1000} {
+		for _, n := range []int{0, 1, 25, 100, 101, 230} {
+			l := &c10ShortLister{per: per}
+			for i := 0; i < n; i++ {
+				l.ents = append(l.ents, c06InfoLike(fmt.Sprintf("entry-%04d", i), int64(i)))
+			}
+			sess, err := vfConnect(vfSrvCfg{Kind: vfRS, H: Handlers{FileList: c10ListHandler{l}}}, vfPipeOpts{})
+			if err != nil {
+				u.Inconclusive("connect: %v", err)
+				return
+			}
+			ents, err := sess.C.ReadDir("/")
+			u.Eval(fmt.Sprintf("bwd/listing/%d/%d", per, n))
+			u.Count("listings_checked", 1)
+			ok := err == nil && len(ents) == n
+			for i := 0; ok && i < n; i++ {
+				ok = ents[i].Name() == l.ents[i].Name() && ents[i].Size() == l.ents[i].Size()
+			}
+			l.mu.Lock()
+			offs := append([]int64(nil), l.offs...)
+			l.mu.Unlock()
+			next := int64(0)
+			for _, o := range offs {
+				if o != next {
+					ok = false
+				}
+				next = o + int64(min(per, max(0, n-int(o)), 100))
+			}
+			if !ok {
+				u.Violation("backward-listing", fmt.Sprintf("lister with %d entries handing out %d per call: ReadDir returned %d entries (err %v), ListAt was called with offsets %v", n, per, len(ents), err, offs), nil)
+			}
+			sess.Close()
+		}
+	}
+}
+
+type c10Info struct {
+	name string
+	size int64
+}
+
+func (i c10Info) Name() string       { return i.name }
+func (i c10Info) Size() int64        { return i.size }
+func (i c10Info) Mode() os.FileMode  { return 0o644 }
+func (i c10Info) ModTime() time.Time { return time.Unix(1500000000, 0) }
+func (i c10Info) IsDir() bool        { return false }
+func (i c10Info) Sys() any           { return nil }
+
+func c06InfoLike(name string, size int64) os.FileInfo { return c10Info{name, size} }
